@@ -172,7 +172,9 @@ func (a *Allocator) TrimTo(max int) {
 			break
 		}
 		alloc += len(b)
-		if alloc < max {
+		// Always keep the first buffer: addBufferAt sizes a new buffer from its predecessor, and
+		// Release and String stop at the first empty slot.
+		if alloc < max || i == 0 {
 			continue
 		}
 		Free(b)
